@@ -145,7 +145,12 @@ where
     /// Return the state with a new constraint
     pub fn with_constraint(mut self, constraint: Rc<dyn Constraint<U, E>>) -> State<U, E> {
         U::with_constraint(&mut self, &constraint);
-        self.cstore_to_mut().push_and_normalize(constraint);
+        // A constraint dropped as redundant leaves the store without going through
+        // `take_constraint()`; tell the user about it here.
+        let dropped = self.cstore_to_mut().push_and_normalize(constraint);
+        for c in dropped.iter() {
+            U::take_constraint(&mut self, c);
+        }
         self
     }
 
